@@ -422,10 +422,10 @@ class ECU(UDSClient):
             return
 
         self.tester_present_task.cancel()
-        try:
-            await self.tester_present_task
-        except asyncio.CancelledError:
-            pass
+        # Do not `await` the worker directly: its CancelledError could not be
+        # told apart from a cancellation of the calling task (e.g. Ctrl-C under
+        # asyncio.run()), which must propagate instead of being swallowed.
+        await asyncio.wait([self.tester_present_task])
 
     async def update_state(
         self, request: service.UDSRequest, response: service.UDSResponse
